@@ -38,7 +38,17 @@ impl<const N: usize, Value> IndexMap<N, Value> {
 
     #[inline(always)]
     pub(crate) unsafe fn delete(&mut self, index: usize) {
-        *self.index.get_unchecked_mut(index) = Self::NULL
+        let slot = self.index.get_unchecked_mut(index);
+        if *slot != Self::NULL {
+            let position = *slot as usize;
+            *slot = Self::NULL;
+            // remove the entry itself, so that `values` holds live entries only
+            // and `iter` / `into_iter` never yield a deleted or replaced value
+            self.values.remove(position);
+            for (i, _) in self.values.get_unchecked(position..) {
+                *self.index.get_unchecked_mut(*i) -= 1
+            }
+        }
     }
 
     #[inline(always)]
